@@ -235,7 +235,7 @@ pub fn workload_strategy(g: RosGen, ulo: u64, uhi: u64) -> BoxedStrategy<Workloa
 /// multiply all time parameters of an arrival spec by f (keeps realisability)
 pub fn stretch(a: &mut ArrSpec, f: u64) {
     match a {
-        ArrSpec::Never => {}
+        ArrSpec::Never | ArrSpec::Poisson { .. } => {}
         ArrSpec::Periodic { t } | ArrSpec::CurveFromPeriodic { t } => *t *= f,
         ArrSpec::Sporadic { t, j } | ArrSpec::CurveFromSporadic { t, j } => {
             *t *= f;
